@@ -270,11 +270,11 @@ def sc_solver(M, n, solver, chosen, computer="superadditive_cached", gap="exploi
             if solver == "greedy":
                 M.check(f"greedy.maximal[{j}]", rew[int(a)] >= rew[j])
                 if j < int(a):
-                    M.check(f"greedy.lowest_index[{j}]", rew[j] < rew[int(a)])
+                    M.check(f"greedy.lowest_index[{j}]", M.same_computation_lt(rew[j], rew[int(a)]))
             else:
                 M.check(f"worst.minimal[{j}]", rew[int(a)] <= rew[j])
                 if j < int(a):
-                    M.check(f"worst.lowest_index[{j}]", rew[j] > rew[int(a)])
+                    M.check(f"worst.lowest_index[{j}]", M.same_computation_lt(rew[int(a)], rew[j]))
     elif solver == "largest":
         size = {j: popcount(expl[j]) for j in valid}
         M.check("largest.rule", size[int(a)] == max(size.values()) and all(size[j] < size[int(a)] for j in valid if j < int(a)))
